@@ -102,7 +102,10 @@ def generate(seed, tier):
             # if the first run ends without a stop, training is continued on the same state
             "continue": r.choice([None, None, None, {"span": r.randint(0, 2), "gap": r.choice([0, 0, 1]), "replace": r.choice([[], [], [r.randrange(0, n_wit)]])}]),
             # how the caller hands over its callbacks (a CallbackList is re-used, edited in place, by a continued run)
-            "container": r.choice(["list", "list", "tuple", "CallbackList", "CallbackList"]),
+            "container": r.choice(["list", "list", "tuple", "iterator", "CallbackList", "CallbackList"]),
+            # an untrained, perfectly symmetric state (all parameters zero): rotated-basis outcomes of zero
+            # amplitude make gradients non-finite; the event protocol must not care (k = 0 keeps sampling out of it)
+            "zero_params": r.random() < 0.04,
         },
         "faults": faults,
     }
@@ -125,6 +128,11 @@ def execute(plan):
         rng.stream(plan["sub"], mode=cfg.get("rng_mode", "honest"), rare=0.05)
         state = build_state(cfg["state"])
         data_in, data_np, bases = build_data(cfg["data"], with_bases=cfg["state"]["type"] != "positive")
+        if cfg.get("zero_params"):
+            from qsim.world import randomise
+
+            randomise(state, 1, 0.0)
+            tc = dict(tc, k=0)
         rng.arm_global(plan["sub"])
         before = state_digest(state)
         sched = sargs = None
